@@ -65,6 +65,9 @@ def check_stateless(db, chk, rule: str, modnames: Iterable[str], scope: Optional
             chk.ob(rule, f"{mn}:{q}: no per-iteration value is latched from the first iteration of a loop (first rank's data reused for the others)", not la, mod.loc(f), found=la,
                    accepted="values derived from the loop variables are recomputed in every iteration", why="e.g. a name->type map built from the first rank's kernels leaves later ranks' new names unclassified",
                    key=f"{mn}:{q}|latch", nontrivial=False)
+            gc_ = H.generators_consumed_twice(f)
+            chk.ob(rule, f"{mn}:{q}: no generator is consumed twice", not gc_, mod.loc(f), found=gc_ or "none", accepted="a generator feeds one loop / one materialisation",
+                   why="len(list(gen)) in a log statement exhausts the generator: the loop that follows emits nothing", key=f"{mn}:{q}|generator-twice", nontrivial=False)
             sv_ = H.shared_mutable_values(f)
             chk.ob(rule, f"{mn}:{q}: no container is built whose keys / slots share one mutable object", not sv_, mod.loc(f), found=sv_ or "none", accepted="one fresh list / dict per key ({k: [] for k in keys}, defaultdict(list))",
                    why="dict.fromkeys(ranks, []) gives every rank the SAME list: what is appended for one rank shows up under all of them", key=f"{mn}:{q}|shared-mutable", nontrivial=False)
@@ -110,6 +113,14 @@ def check_pickle_hooks(db, chk, rule: str, modname: str, classes: Iterable[str])
             verdict = False if drops else (None if verdict else verdict)
         chk.ob(rule, f"{modname}:{cn}: pickled with the default protocol (whole instance state), no state-dropping hook", verdict, mod.loc(cls), found=det or "no pickling hook", accepted="no __getstate__/__reduce__ hook",
                why="a field left out of the pickled state comes back as the class default (e.g. is_blocking False on every restored node)", key=f"{modname}:{cn}|pickle-hooks")
+        # equality and hash stay the generated, value-based pair: restored objects are new objects and must still be found in sets / dict keys
+        eqh = [st for st in cls.body if (isinstance(st, ast.FunctionDef) and st.name in ("__hash__", "__eq__")) or
+               (isinstance(st, (ast.Assign, ast.AnnAssign)) and any(isinstance(t_, ast.Name) and t_.id in ("__hash__", "__eq__") for t_ in (st.targets if isinstance(st, ast.Assign) else [st.target])))]
+        ident = [st for st in eqh if isinstance(st, (ast.Assign, ast.AnnAssign)) and ("object.__hash__" in ast.unparse(st) or "id(" in ast.unparse(st))] + \
+                [st for st in eqh if isinstance(st, ast.FunctionDef) and st.name == "__hash__" and "id(self)" in ast.unparse(st)]
+        chk.ob(rule, f"{modname}:{cn}: hash and equality are the generated value-based pair (no identity hash on a value-equal class)", True if not eqh else (False if ident else None), mod.loc(cls),
+               found=[" ".join(ast.unparse(st).split())[:70] for st in eqh] or "generated by @dataclass", accepted="no explicit __hash__ / __eq__",
+               why="with __hash__ = object.__hash__ an unpickled edge equals the saved one but hashes differently: it is not found in the restored critical_path_edges_set", key=f"{modname}:{cn}|hash-eq")
         chk.ob(rule, f"{modname}:{cn}: no __slots__ (default pickling covers every field)", not slots, mod.loc(cls), found=[ast.unparse(s) for s in slots], accepted="none", nontrivial=False)
 
 
